@@ -69,7 +69,7 @@ class C18(Prop):
     ASSUMPTIONS = ["file length < 2^63 (off_t)", "valid UTF-8 input whose lines do not end in non-ASCII white space (the models see bytes and trim ASCII white space)",
                    "no I/O errors of the underlying file", "recursion depth limit 100 of do_index: the grouped-index theorem "
                    "carries the hypothesis that the limit covers the file (see notes/C18.md)"]
-    PER_CASE_TIMEOUT = 60.0
+    PER_CASE_TIMEOUT = 20.0
 
     # ------------------------------------------------------------------ generators
     def view_cases(self, rng, tier):
@@ -244,12 +244,14 @@ class C18(Prop):
             for i in range(len(data)):
                 out.append(sx([1, data[:i] + data[i + 1:], ns]))
         elif c[0] == 2:
-            _, f, nl = c
+            f, nl, rest = c[1], c[2], c[3:]
             for i in range(len(f)):
-                out.append(sx([2, f[:i] + f[i + 1:], nl]))
+                out.append(sx([2, f[:i] + f[i + 1:], nl] + rest))
             for i in range(len(f)):
                 if f[i][1] > 8:
-                    out.append(sx([2, f[:i] + [[f[i][0], max(8, f[i][1] // 2)]] + f[i + 1:], nl]))
+                    out.append(sx([2, f[:i] + [[f[i][0], max(8, f[i][1] // 2)]] + f[i + 1:], nl] + rest))
+            if rest:
+                out.append(sx([2, f, nl]))
         return out
 
 
